@@ -28,7 +28,13 @@ pub fn make_case(r: &mut rand::rngs::StdRng, k: usize, nenv: usize, safety_margi
 
 /// `j1_limits`: optional non-wrapping J1 range (e.g. one that reaches beyond 180 degrees)
 pub fn make_case_with(r: &mut rand::rngs::StdRng, k: usize, nenv: usize, safety_margin: bool, j1_limits: Option<(f64, f64)>, extra_env: &[WBox]) -> ShapeCase {
-    let p = Parameters::irb2400_10();
+    make_case_scaled(r, k, nenv, safety_margin, j1_limits, extra_env, 1.0)
+}
+
+/// `scale`: all link lengths of the robot multiplied by it (a large robot of the same proportions)
+pub fn make_case_scaled(r: &mut rand::rngs::StdRng, k: usize, nenv: usize, safety_margin: bool, j1_limits: Option<(f64, f64)>, extra_env: &[WBox], scale: f64) -> ShapeCase {
+    let mut p = Parameters::irb2400_10();
+    p.a1 *= scale; p.a2 *= scale; p.b *= scale; p.c1 *= scale; p.c2 *= scale; p.c3 *= scale; p.c4 *= scale;
     let base_iso = if k % 3 == 0 { Iso::identity() } else { solver::random_iso(r, 0.3) };
     let tool_iso = if k % 2 == 0 { Iso { r: oracle::I3, t: [0.0, 0.0, 0.15] } } else { solver::random_iso(r, 0.15) };
     // (every fourth case has J6 limits that are not centred at zero)
